@@ -105,6 +105,7 @@ class Contract:
         self.doc = (klass.__doc__ or '').strip()
         self.timeout_ms = d.get('timeout_ms', 10000)
         self.min_timeout_ms = d.get('min_timeout_ms', 0)     # large composite functions: per-query floor
+        self.explore_budget_s = d.get('explore_budget_s', 240)
         self.path_limit = d.get('path_limit', 4000)
         self.setup = d.get('setup')          # optional symbolic set-up: fn(ip, args) run before requires
         # loop<k>_invariant(params..., i, locals...) / loop<k>_modifies(params..., locals...): inductive invariant and
@@ -825,7 +826,7 @@ def verify_function(target: str, only: Optional[str] = None, timeout_ms: Optiona
             shared['bound'] = bound
             shared['deadline'] = time.time() + 60
         else:
-            shared['deadline'] = time.time() + 240
+            shared['deadline'] = time.time() + con.explore_budget_s
         ip = Interp(reg, st, PathCtl(), shared)
         ip.top_target = target
         params = make_params(ip, con, fn)
